@@ -954,6 +954,8 @@ class Evaluator:
                 return Opaque(o.dtype, "dtype")
         if isinstance(o, Opaque):
             return Method(o, n.attr)
+        if isinstance(o, list):
+            return Method(o, n.attr)
         raise Outside(f"attribute .{n.attr} of {type(o).__name__}")
 
     # -- operators -------------------------------------------------------------------------
@@ -1436,6 +1438,17 @@ def Executor_call_method(self, m, st, args, kwargs, node, ev):
         h = self.contract.handlers.get("opaque." + m.name)
         if h:
             return h(self, st, o, args, kwargs, node, ev)
+    if isinstance(o, list) and m.name == "append" and len(args) == 1:
+        # Python lists are modelled as immutable values: append rebinds every local that holds this list
+        new = o + [args[0]]
+        hit = False
+        for k2, v2 in list(st.env.items()):
+            if v2 is o:
+                st.env[k2] = new
+                hit = True
+        if not hit:
+            raise Outside("append to a list that is not a local variable")
+        return None
     raise Outside(f"method {m.name} of {type(o).__name__}")
 
 
